@@ -352,6 +352,65 @@ def huge_flat_cases(rng, full=False):
     return cases
 
 
+M61 = 2 ** 61 - 1      # CPython hashes ints modulo this prime
+
+
+def hash_twin_pairs():
+    """pairs of DIFFERENT literal values that the host language gives the same hash (ints that differ by a multiple of 2^61-1, -1 and -2,
+    a float and the int its hash is): whatever a renderer, a cache or a container keys by hash confuses exactly these"""
+    big = 2 ** 64 + 12345
+    return [(lit_int(big), lit_int(big + 3 * M61)), (lit_int(big + M61), lit_int(big)), (lit_int(-1), lit_int(-2)), (lit_float("0.5"), lit_int(2 ** 60)),
+            (lit_int(M61), lit_int(0)), (lit_int(5), lit_int(5 + M61)), (lit_int(10 ** 30), lit_int(10 ** 30 + M61)), (lit_int(-(2 ** 70)), lit_int(-(2 ** 70) - M61)),
+            (lit_float("1.5"), lit_int(2 ** 60 + 1)), (lit_int(2 ** 64), lit_int(2 ** 64 + 2 * M61)), (lit_int(2 ** 200 + 1), lit_int(2 ** 200 + 1 + 7 * M61)),
+            (lit_float("0.25"), lit_int(2 ** 59)), (lit_int(1), lit_int(1 + M61))]
+
+
+def repeated_leaf_programs(rng, sizes=None):
+    """the SAME statement (a return of n groups; a membership test of n members) written several times in one program, at different nesting
+    depths, shallow occurrence first and deep occurrence first: what a renderer that remembers a piece of text by its content replays in the wrong place"""
+    L = lambda t: lit_str(t, quote='"')
+    cases = []
+    eq = lambda name: ("cmp", ("id", name), "==", ("lit", lit_int(1)))
+    envs = [{"u": "unit%d" % (7 * i + j), "a": i & 1, "b": (i >> 1) & 1, "c": (i >> 2) & 1, "x": j} for i in range(8) for j in (0, 3)]
+    fields = {"u": "any", "a": "int", "b": "int", "c": "int", "x": "any"}
+    for n in (sizes or [1, 2, 3, 8, 19, 20, 21, 22, 24, 32, 33, 64, 65, 100]):
+        G = ("ret", [(L("g%d" % i), str(1 + i % 3)) for i in range(n)])
+        G2 = ("ret", [(L("g%d" % i), str(1 + (i + 1) % 3)) for i in range(n)])
+        shapes = {
+            "shallow-first": ("if", eq("a"), G, ("else", ("if", eq("b"), G, ("else", ("if", eq("c"), G, ("else", G2)))))),
+            "deep-first": ("if", eq("a"), ("if", eq("b"), ("if", eq("c"), G, ("else", G2)), ("else", G)), ("else", G)),
+            "chain-then-nested": ("if", eq("a"), G, ("elif", eq("b"), ("if", eq("c"), G, None), ("else", ("if", eq("c"), ("if", eq("x"), G2, ("else", G)), ("else", G))))),
+        }
+        for name, cond in shapes.items():
+            cases.append({"prog": Program("rep_%s_%d" % (name.replace("-", "_"), n), L("s"), ["u"], cond, fields), "envs": envs, "kind": "return:" + name})
+        T = ("tuple", [("lit", lit_int(3 * i)) for i in range(n)])
+        P = ("cmp", ("id", "x"), "in", T)
+        cond = ("if", P, ("ret", [(L("T0"), "1")]), ("else", ("if", eq("a"), ("if", P, ("ret", [(L("T2"), "1")]), ("else", ("ret", [(L("F2"), "1")]))),
+                                                                   ("elif", P, ("ret", [(L("T1"), "1")]), ("else", ("ret", [(L("F1"), "1")]))))))
+        cases.append({"prog": Program("rep_pred_%d" % n, None, ["u"], cond, fields), "envs": envs, "kind": "predicate"})
+    for c in cases:
+        c["text"] = render(c["prog"], rng, "plain")
+    return cases
+
+
+WS_CLASSES = [" ", "\t", "\r", "\n", "\r\n", "\x0c", "\x0b", "\r\r", "\t\r", "\n\r"]
+IN_STRING = ["\r", "\t", "\x0c", "\x0b", "\x85", "\u2028", "\x00", "a\rb", "\r\r", " ", "\x1c", "\x1e"]
+
+
+def ws_class_texts():
+    """one program whose string literals hold a control / separator character, written with ONE kind of white space throughout (only blanks, only
+    tabs, only carriage returns, only line feeds, ...), between all tokens and only where a separator is needed: a text without any line feed, a
+    text of one line per token"""
+    out = []
+    for sep in WS_CLASSES:
+        for s in IN_STRING:
+            toks = ["def", "e", "{", "salt", ":", '"s%s"' % s, "splitters", ":", "u", "if", "x", "==", '"%s"' % s, "{", "return", '"T%s"' % s, "weighted", "1", "}",
+                    "else", "{", "return", '"F"', "weighted", "1", ",", "'%s'" % s, "weighted", "1", "}", "}"]
+            out.append((sep, s, join_tokens(toks, lambda i, a, b, must: sep)))
+            out.append((sep, s, join_tokens(toks, lambda i, a, b, must: sep if must else "")))
+    return out
+
+
 def membership_cases(rng, n):
     """membership tests against literal tuples of 1..24 members (all scalar literals; with an identifier; with a nested tuple), asked
     with values of every kind a caller's record can hold — also unhashable ones (a list, a dict, a set, a composite id decoded from
@@ -366,6 +425,13 @@ def membership_cases(rng, n):
         prog = Program("e", None, ["u"], cond, {"u": "any", "x": "any"})
         envs = [{"u": "u1", "x": v} for v in list(pyv(shaped))[:2] + ["unit", "alice", "v0", 7, ("name", "unit")]]
         cases.append({"prog": prog, "text": render(prog, rng, "plain"), "envs": envs})
+    for a, b in hash_twin_pairs():
+        # two different members with the same hash: membership is an equality scan over ALL members
+        for op in ("in", "not in"):
+            members = [("lit", a), ("lit", b), ("lit", L("zz"))]
+            cond = ("if", ("cmp", ("id", "x"), op, ("tuple", members)), ("ret", [(L("T"), "1")]), ("else", ("ret", [(L("F"), "1")])))
+            prog = Program("e", None, ["u"], cond, {"u": "any", "x": "any"})
+            cases.append({"prog": prog, "text": render(prog, rng, "plain"), "envs": [{"u": "u1", "x": v} for v in (a.value, b.value, "zz", 0, [a.value], str(b.value))]})
     for _ in range(n):
         k = rng.choice([1, 1, 2, 3, 4, 5, 8, 11, 12, 13, 16, 24, 31, 32, 33, 34, 48, 49, 50, 63, 64, 65, 66, 100, 129])
         kind = rng.choice(["int", "str", "str", "mixed"])
